@@ -77,7 +77,7 @@ def gen_cast(rng, ledger):
             break
         role = "r%d" % rng.below(nroles)
         mul = None if rng.chance(1, 2) else rng.pick([1, 2, 2, 3] + ([0] if not ledger else []))
-        vals = {v: "%s%d%s" % (bases[k], rng.below(90), rng.pick(["", "", " x"])) for v in VARS if rng.chance(1, 2)}
+        vals = {v: "%s%d%s" % (bases[k], rng.below(90), rng.pick(["", "", " x", "%", "%d", "%%", "%3", " 5%s"])) for v in VARS if rng.chance(1, 2)}
         w = with_text(rng, vals)
         cast.append({"base": bases[k], "mul": mul, "role": role, "with": w, "vals": vals})
         if mul is None:
